@@ -7,7 +7,7 @@ for D in "$@"; do
   P=$(/venv/bin/python -c "import json,sys; print(json.load(open('$D/meta.json'))['property'])")
   WT=/tmp/seed_regress_$$
   git -C /repo worktree add -q --detach "$WT" HEAD || exit 3
-  if git -C "$WT" apply "$D/patch.diff" 2>/dev/null; then
+  if git -C "$WT" apply "/verif/$D/patch.diff" 2>/dev/null; then
     OUT=$(VERIF_REPO="$WT" VERIF_NPROC=${VERIF_NPROC:-8} ./check $P --tier quick 2>&1)
     N=$(echo "$OUT" | grep -c "^VIOLATION")
     echo "$(basename $D) $P violations=$N $(echo "$OUT" | grep RESULT | grep -o 'exit=[0-9]')"
